@@ -81,8 +81,9 @@ namespace ratio
 
     void flaw::add_resolver(resolver &r)
     {
-        // the activation of the resolver activates (and solves!) the flaw..
-        if (!slv.get_sat_core().new_clause({!r.rho, phi}))
+        // the activation of the resolver activates (and solves!) the flaw.. this holds for the resolvers which have their own 'rho' only:
+        // when 'rho' is a literal of the problem (a value of a variable, a literal of a disjunction) it can be true whether the flaw is in the plan or not..
+        if (r.own_rho && !slv.get_sat_core().new_clause({!r.rho, phi}))
             throw unsolvable_exception();
         resolvers.push_back(&r);
         slv.new_resolver(r);
